@@ -24,15 +24,15 @@ def run(tier):
     common.build(["hook"])
     common.replay_witnesses(ck, ["hook"])
     common.replay_known(ck)
-    n = 2500 if quick else 80000
+    n = 2500 if quick else 80000 * common.TS
     rng = ck.rng.fork("iter")
     plist = [{"name": "iter/%d" % i, "steps": [("snip", feat_data.iter_program(rng.fork(str(i))))], "mods": []} for i in range(n)]
     r3 = ck.rng.fork("itermut")
     plist += [{"name": "itermut/%d" % i, "steps": [("snip", feat_data.iter_mutation_program(r3.fork(str(i))))], "mods": []}
-              for i in range(300 if quick else 10000)]
+              for i in range(300 if quick else 10000 * common.TS)]
     prof = profiles(ck.findings.avoid_tags())[0][1]
     r2 = ck.rng.fork("mixed")
-    for i in range(400 if quick else 10000):
+    for i in range(400 if quick else 10000 * common.TS):
         src, mods = progs.generate(r2.fork(str(i)), prof)
         plist.append({"name": "mixed/%d" % i, "steps": [("snip", src)], "mods": mods})
 
